@@ -174,6 +174,9 @@ def run(tier, replay=None):
     from . import emitrules, c05
     emitrules.check_display(prog, rep)
     c05.spec_roundtrip(rep)
+    # values built by the compile-time macros belong to this property's domain as well: the macro witnesses of C16 (cached per tree)
+    from . import c16
+    c16.witness_family(rep, tier)
     rep.explanation = ('x == y iff to_string equal, decided through its structural preconditions: (1) every comparison/hash impl of the ten value types is the derived, field-wise one, so Eq, Ord and Hash '
                        'cannot disagree with each other; (2) fields are declared in the order language, script, region, variants (and id, extensions), which is the order the property states; '
                        '(3) the representation behind one canonical string is unique: ordered collections are sorted/duplicate-free, "no variants" is always None, the empty language is always None '
